@@ -35,13 +35,22 @@ var inGroup = func() map[uint32]bool {
 func (rt *Transfer) setUid(f *File, st fs.FileInfo) (fs.FileInfo, error) {
 	stt := st.Sys().(*syscall.Stat_t)
 
+	// Map the sender's ids to local ids by name, see RecvIdList.
+	fUid, fGid := f.Uid, f.Gid
+	if m, ok := rt.Users[f.Uid]; ok {
+		fUid = m.LocalId
+	}
+	if m, ok := rt.Groups[f.Gid]; ok {
+		fGid = m.LocalId
+	}
+
 	changeUid := rt.Opts.PreserveUid &&
 		amRoot &&
-		stt.Uid != uint32(f.Uid)
+		stt.Uid != uint32(fUid)
 
 	changeGid := rt.Opts.PreserveGid &&
-		(amRoot || inGroup[uint32(f.Gid)]) &&
-		stt.Gid != uint32(f.Gid)
+		(amRoot || inGroup[uint32(fGid)]) &&
+		stt.Gid != uint32(fGid)
 
 	if !changeUid && !changeGid {
 		return st, nil
@@ -49,11 +58,11 @@ func (rt *Transfer) setUid(f *File, st fs.FileInfo) (fs.FileInfo, error) {
 
 	uid := stt.Uid
 	if changeUid {
-		uid = uint32(f.Uid)
+		uid = uint32(fUid)
 	}
 	gid := stt.Gid
 	if changeGid {
-		gid = uint32(f.Gid)
+		gid = uint32(fGid)
 	}
 	if err := rt.DestRoot.Lchown(f.Name, int(uid), int(gid)); err != nil {
 		return nil, err
